@@ -620,3 +620,201 @@ Proof.
         rewrite Hrs. destruct (X ++ cv_sep cv :: b) eqn:E; [destruct X; discriminate|reflexivity].
       * exact Hb2.
 Qed.
+
+(* ------------------------------------------------------------------ normalize_path = render of a key *)
+Lemma snoc_cases {T} (l : list T) : l = [] \/ exists l' b, l = l' ++ [b].
+Proof.
+  destruct l as [|x l]; [left; reflexivity|right].
+  destruct (exists_last (l := x :: l)) as [l' [b E]]; [discriminate|]. exists l', b. exact E.
+Qed.
+
+Lemma join_sep_nil cv : join cv [[cv_sep cv]; []] = [cv_sep cv].
+Proof.
+  rewrite join_eq. unfold norm_list. cbn [map]. rewrite nps_sep, nps_nil. cbn [filter nonempty].
+  unfold strip_list. rewrite rstrip_cons. cbn [rstrip_nil]. rewrite rstrip_nil, N.eqb_refl. reflexivity.
+Qed.
+
+Lemma split_sep cv : split cv [cv_sep cv] = ([cv_sep cv], []).
+Proof.
+  change [cv_sep cv] with ([] ++ cv_sep cv :: []) at 1. rewrite split_at; [reflexivity| |intros []].
+  apply nps_sep.
+Qed.
+
+Lemma normalize_disp cv (Hf : fold_ok cv) p : cv_cs cv = false ->
+  normalize_path cv p true = render cv (disp cv (pc cv p)).
+Proof.
+  intros Hc. rewrite normalize_eq. cbv zeta. rewrite Hc.
+  pose proof (pc_gcomp cv p) as Hg.
+  destruct (snoc_cases (pc cv p)) as [E|[l [b E]]]; rewrite E in *.
+  - cbn [render disp]. unfold dirname, basename. rewrite split_sep. cbn [fst snd].
+    simpl lower. rewrite (fold_sep cv Hf). apply join_sep_nil.
+  - apply Forall_app in Hg as [Hl Hb]. inversion Hb as [|b' r Hb' _]; subst.
+    rewrite disp_snoc. apply (display_join cv Hf l b Hl Hb').
+Qed.
+
+Definition key (cv : conv) (d : bool) (l : list str) : list str :=
+  if cv_cs cv then l else if d then disp cv l else map (lower cv) l.
+
+Lemma normalize_render cv (Hok : conv_ok cv) p d :
+  normalize_path cv p d = render cv (key cv d (pc cv p)).
+Proof.
+  unfold key. destruct (cv_cs cv) eqn:Hc; [apply normalize_cs; exact Hc|].
+  destruct d; [apply normalize_disp|apply normalize_ci]; auto.
+Qed.
+
+Lemma gcomp_disp cv (Hf : fold_ok cv) l : Forall (gcomp cv) l -> Forall (gcomp cv) (disp cv l).
+Proof.
+  intros H. destruct (snoc_cases l) as [->|[l' [b ->]]]; [constructor|].
+  rewrite disp_snoc. apply Forall_app in H as [Hl Hb]. apply Forall_app. split; [|exact Hb].
+  apply gcomp_map_lower; assumption.
+Qed.
+
+Lemma gcomp_key cv (Hok : conv_ok cv) d l : Forall (gcomp cv) l -> Forall (gcomp cv) (key cv d l).
+Proof.
+  intros H. unfold key. destruct (cv_cs cv) eqn:Hc; [exact H|].
+  destruct d; [apply gcomp_disp|apply gcomp_map_lower]; auto.
+Qed.
+
+Lemma map_lower_idem cv (Hf : fold_ok cv) l : map (lower cv) (map (lower cv) l) = map (lower cv) l.
+Proof. rewrite map_map. apply map_ext. intros q. apply lower_idem. exact Hf. Qed.
+
+Lemma disp_idem cv (Hf : fold_ok cv) l : disp cv (disp cv l) = disp cv l.
+Proof.
+  destruct (snoc_cases l) as [->|[l' [b ->]]]; [reflexivity|].
+  rewrite !disp_snoc. rewrite map_lower_idem by exact Hf. reflexivity.
+Qed.
+
+Lemma key_idem cv (Hok : conv_ok cv) d l : key cv d (key cv d l) = key cv d l.
+Proof.
+  unfold key. destruct (cv_cs cv) eqn:Hc; [reflexivity|].
+  destruct d; [apply disp_idem|apply map_lower_idem]; auto.
+Qed.
+
+Theorem normalize_idem cv (Hok : conv_ok cv) p d :
+  normalize_path cv (normalize_path cv p d) d = normalize_path cv p d.
+Proof.
+  rewrite (normalize_render cv Hok p d).
+  rewrite (normalize_render cv Hok (render cv _) d).
+  rewrite pc_render by (apply gcomp_key; [exact Hok|apply pc_gcomp]).
+  rewrite key_idem by exact Hok. reflexivity.
+Qed.
+
+Lemma render_inj cv l1 l2 : Forall (gcomp cv) l1 -> Forall (gcomp cv) l2 ->
+  render cv l1 = render cv l2 -> l1 = l2.
+Proof.
+  intros H1 H2 E. rewrite <- (pc_render cv l1 H1), <- (pc_render cv l2 H2), E. reflexivity.
+Qed.
+
+(* ------------------------------------------------------------------ paths_match *)
+Lemma match_iff_norm cv a b d :
+  paths_match cv a b d = true <-> normalize_path cv a d = normalize_path cv b d.
+Proof. unfold paths_match. apply str_eqb_eq. Qed.
+
+Lemma match_refl cv a d : paths_match cv a a d = true.
+Proof. apply match_iff_norm. reflexivity. Qed.
+
+Lemma match_sym cv a b d : paths_match cv a b d = paths_match cv b a d.
+Proof. unfold paths_match. apply str_eqb_sym. Qed.
+
+Lemma match_trans cv a b c d :
+  paths_match cv a b d = true -> paths_match cv b c d = true -> paths_match cv a c d = true.
+Proof. rewrite !match_iff_norm. congruence. Qed.
+
+Lemma match_iff_key cv (Hok : conv_ok cv) a b d :
+  paths_match cv a b d = true <-> key cv d (pc cv a) = key cv d (pc cv b).
+Proof.
+  rewrite match_iff_norm, !(normalize_render cv Hok). split; [|congruence].
+  apply render_inj; apply gcomp_key; try exact Hok; apply pc_gcomp.
+Qed.
+
+Lemma match_case cv (Hf : fold_ok cv) p : cv_cs cv = false ->
+  paths_match cv p (lower cv p) false = true.
+Proof.
+  intros Hc. apply match_iff_key; [intros _; exact Hf|].
+  unfold key. rewrite Hc. rewrite pc_lower, map_lower_idem by exact Hf. reflexivity.
+Qed.
+
+(* normalisation does not change the class *)
+Lemma match_normalize cv (Hok : conv_ok cv) p d : paths_match cv (normalize_path cv p d) p d = true.
+Proof. apply match_iff_norm. apply normalize_idem. exact Hok. Qed.
+
+(* display mode is finer than plain matching and folds to it *)
+Lemma lower_disp cv (Hf : fold_ok cv) l : map (lower cv) (disp cv l) = map (lower cv) l.
+Proof.
+  destruct (snoc_cases l) as [->|[l' [b ->]]]; [reflexivity|].
+  rewrite disp_snoc, !map_app, map_lower_idem by exact Hf. reflexivity.
+Qed.
+
+Lemma display_same_class cv (Hf : fold_ok cv) p : cv_cs cv = false ->
+  lower cv (normalize_path cv p true) = normalize_path cv p false.
+Proof.
+  intros Hc. rewrite normalize_disp, normalize_ci by assumption.
+  rewrite lower_render, lower_disp by exact Hf. reflexivity.
+Qed.
+
+Lemma match_display_plain cv (Hok : conv_ok cv) a b :
+  paths_match cv a b true = true -> paths_match cv a b false = true.
+Proof.
+  destruct (cv_cs cv) eqn:Hc.
+  - rewrite !match_iff_norm, !normalize_cs by exact Hc. auto.
+  - pose proof (Hok Hc) as Hf. rewrite !match_iff_norm. intros H.
+    rewrite <- !(display_same_class cv Hf) by exact Hc. rewrite H. reflexivity.
+Qed.
+
+(* the case-sensitive twin of a convention *)
+Definition cs_twin (cv : conv) : conv :=
+  {| cv_sep := cv_sep cv; cv_alt := cv_alt cv; cv_cs := true; cv_win := cv_win cv; cv_fold := cv_fold cv |}.
+
+Lemma nps_render cv l : Forall (gcomp cv) l -> nps cv (render cv l) = render cv l.
+Proof.
+  intros H. destruct l as [|p l]; [apply nps_sep|]. unfold render, fin.
+  destruct (dl cv _); [apply nps_intercalate; [exact H|discriminate]|].
+  pose proof (head_intercalate_good _ _ (gcomp_good cv _ H)) as Hh.
+  unfold add_sep. destruct (intercalate (cv_sep cv) (p :: l)) as [|x j] eqn:E; [reflexivity|].
+  destruct (N.eqb_spec x (cv_sep cv)); [contradiction|].
+  rewrite <- E. apply nps_sep_intercalate; [exact H|discriminate].
+Qed.
+
+Lemma basename_render cv l b : Forall (gcomp cv) l -> gcomp cv b ->
+  basename cv (render cv (l ++ [b])) = b.
+Proof.
+  intros Hl Hb.
+  assert (Hall : Forall (gcomp cv) (l ++ [b])) by (apply Forall_app; split; [exact Hl|constructor; [exact Hb|constructor]]).
+  pose proof (nps_render cv _ Hall) as Hn.
+  pose proof Hb as [[Hb1 Hb2] Hb3].
+  assert (Hform : render cv (l ++ [b]) = b \/ exists a, render cv (l ++ [b]) = a ++ cv_sep cv :: b).
+  { assert (Hr : render cv (l ++ [b]) = fin cv (intercalate (cv_sep cv) (l ++ [b]))) by (destruct l; reflexivity).
+    rewrite Hr.
+    assert (HJ : intercalate (cv_sep cv) (l ++ [b]) = b \/ exists a, intercalate (cv_sep cv) (l ++ [b]) = a ++ cv_sep cv :: b).
+    { destruct l as [|p l]; [left; reflexivity|right]. rewrite intercalate_snoc by discriminate. eexists. reflexivity. }
+    unfold fin. destruct (dl cv _); [exact HJ|].
+    unfold add_sep. destruct HJ as [HJ|[a HJ]]; rewrite HJ.
+    - destruct b as [|x b']; [contradiction|]. destruct (N.eqb x (cv_sep cv)); [left; reflexivity|].
+      right. exists []. reflexivity.
+    - destruct (a ++ cv_sep cv :: b) as [|x j] eqn:E; [destruct a; discriminate|].
+      destruct (N.eqb x (cv_sep cv)); [right; exists a; symmetry; exact E|].
+      right. exists (cv_sep cv :: a). rewrite <- E. reflexivity. }
+  unfold basename. destruct Hform as [E|[a E]]; rewrite E in *.
+  - rewrite split_nosep by assumption. reflexivity.
+  - rewrite split_at by assumption. reflexivity.
+Qed.
+
+Lemma basename_cs_twin cv s : basename (cs_twin cv) s = basename cv s.
+Proof. reflexivity. Qed.
+
+Lemma pc_cs_twin cv s : pc (cs_twin cv) s = pc cv s.
+Proof. reflexivity. Qed.
+
+Lemma render_cs_twin cv l : render (cs_twin cv) l = render cv l.
+Proof. reflexivity. Qed.
+
+Lemma display_keeps_leaf cv (Hf : fold_ok cv) p : cv_cs cv = false ->
+  basename cv (normalize_path cv p true) = basename cv (normalize_path (cs_twin cv) p false).
+Proof.
+  intros Hc. rewrite normalize_disp by assumption.
+  rewrite (normalize_cs (cs_twin cv) p false eq_refl), pc_cs_twin, render_cs_twin.
+  pose proof (pc_gcomp cv p) as Hg.
+  destruct (snoc_cases (pc cv p)) as [E|[l [b E]]]; rewrite E in *; [reflexivity|].
+  rewrite disp_snoc. apply Forall_app in Hg as [Hl Hb]. inversion Hb as [|b' r Hb' _]; subst.
+  rewrite !basename_render; auto. apply gcomp_map_lower; assumption.
+Qed.
